@@ -593,10 +593,10 @@ class Interp:
         return {state}, E, E
 
 
-def explore(fn, module, flags, **kw):
-    """closure of {name=complete} under call + crash + restart."""
+def explore(fn, module, flags, fresh=False, **kw):
+    """closure of {name=complete} (fresh=True: of the empty directory — the first checkpoint of a run) under call + crash + restart."""
     interp = Interp(fn, module, flags, **kw)
-    init = FS({'': C}.items())
+    init = FS({}.items()) if fresh else FS({'': C}.items())
     seen: Set[FS] = set()
     work = [init]
     origin: Dict[FS, Tuple[FS, str, int]] = {}
@@ -952,6 +952,41 @@ def run(ctx, rep):
                     f"reached by: {' ; '.join(history(origin, s))}")
         else:
             rep.ok('C18.X', ftxt, where(m, fn), {'flags': flags, 'states_checked': len(seen)})
+    # one writer at a time: the protocol above is decided for sequential calls.  The writer (or save_full_state) handed to a thread / executor / timer as a callable can run while
+    # the previous call is still between `open(name.new)` and `replace`: both write the same name.new, and the first replace installs a file the second is still writing
+    conc = []
+    for m2 in ctx.prog.modules.values():
+        for node in ast.walk(m2.tree):
+            if isinstance(node, ast.Call):
+                for a in list(node.args) + [k.value for k in node.keywords]:
+                    nm = a.id if isinstance(a, ast.Name) else (a.attr if isinstance(a, ast.Attribute) else None)
+                    if nm in (WRITER_FN, 'save_full_state'):
+                        conc.append((m2, node, nm))
+    for m2, node, nm in conc:
+        fn2 = enclosing_function(node)
+        rep.bad('C18.W', f"{m2.name}.{fn2.name if fn2 else '?'}::{nm}-is-called-not-handed-over", where(m2, node), {'call': norm_text(node)[:80]},
+                f"`{norm_text(node)[:70]}` hands `{nm}` to another component as a callable (a thread, an executor, a timer): checkpoints can then be written concurrently, two writers share "
+                f"`name.new`, and the replace of the first installs under the checkpoint name a file the second is still writing")
+    rep.ok('C18.W', 'writer::runs-in-the-calling-thread', '', {'callable_handovers': len(conc)})
+    # who may receive the checkpoint path: the atomic writer (directly or through the class's own save_full_state), path queries, string methods, reads.  A component that is
+    # handed the path and writes it its own way (a Dumper, a logger, a thread body …) bypasses the protocol decided above
+    ALLOWED = {WRITER_FN, 'save_full_state', 'print', 'str', 'len', 'repr', 'format', 'isinstance', 'join', 'exists', 'lexists', 'isfile', 'isdir', 'dirname', 'basename', 'abspath',
+               'fspath', 'splitext', 'getsize', 'getmtime', 'Path', 'replace', 'endswith', 'startswith'}
+    for ci in sorted(ctx.classes.classes.values(), key=lambda c: c.qualname):
+        for node in ast.walk(ci.node):
+            if not isinstance(node, ast.Call):
+                continue
+            handed = [a for a in list(node.args) + [k.value for k in node.keywords] if self_attrs(a) & attrs and isinstance(a, ast.Attribute)]
+            if not handed:
+                continue
+            callee = (dotted_name(node.func) or (node.func.attr if isinstance(node.func, ast.Attribute) else '')).split('.')[-1]
+            if callee in ('open', 'io.open'):
+                continue        # decided below (mode)
+            fn2 = enclosing_function(node)
+            rep.check('C18.W', f"{ci.qualname}.{fn2.name if fn2 else '?'}::checkpoint-path-goes-to-the-atomic-writer-only::{callee}", callee in ALLOWED, where(ci.module, node),
+                      {'callee': callee, 'argument': ast.unparse(handed[0])},
+                      f"{ci.name}.{fn2.name if fn2 else '?'} hands the checkpoint path to `{callee}(…)`, which is not the atomic writer: whatever writes the file there (in place, from "
+                      f"another thread, without the .new / replace steps) is outside the protocol — a crash can leave the name truncated with no complete copy next to it")
     for ci in sorted(ctx.classes.classes.values(), key=lambda c: c.qualname):
         used = {n.attr for n in ast.walk(ci.node) if isinstance(n, ast.Attribute) and n.attr in attrs}
         if not used:
